@@ -482,6 +482,76 @@ def check_project(job):
     return (kind, name, v, st)
 
 
+# ---- (5b) files read at configure time through modules, before and after a subproject used the same modules ---------------
+# Whether a file read with fs.read() / keyval.load() counts as a "build-definition file" is meson's decision (it does list
+# them); what the property fixes is that the answer is the same for every such file: it cannot depend on whether the file was
+# read before or after a subproject ran, and the list agrees with what build.ninja regenerates on.
+# NOT under /dev/shm: Interpreter.add_build_def_file() ignores every path that starts with /dev/.
+READS_FILES = {
+    'meson.build': "project('reads', 'c')\nfs = import('fs')\nkv = import('keyval')\na = fs.read('A.txt')\nka = kv.load('KA.cfg')\n"
+                   "subproject('sub')\nb = fs.read('B.txt')\nkb = kv.load('KB.cfg')\nsubdir('d')\n"
+                   "configure_file(input: 't.in', output: 't.out', configuration: {'X': 1})\n",
+    'd/meson.build': "c = fs.read('C.txt')\nkc = kv.load(files('KC.cfg'))   # a plain string would be looked up in the source root\n",
+    'A.txt': 'a\n', 'B.txt': 'b\n', 'd/C.txt': 'c\n', 'KA.cfg': 'K=1\n', 'KB.cfg': 'K=2\n', 'd/KC.cfg': 'K=3\n', 't.in': '@X@\n',
+    'subprojects/sub/meson.build': "project('sub')\nfs = import('fs')\nkv = import('keyval')\ns = fs.read('S.txt')\nks = kv.load(files('KS.cfg'))\n",
+    'subprojects/sub/S.txt': 's\n', 'subprojects/sub/KS.cfg': 'K=4\n',
+}
+READS_GROUPS = [['A.txt', 'B.txt', 'd/C.txt', 'subprojects/sub/S.txt'], ['KA.cfg', 'KB.cfg', 'd/KC.cfg', 'subprojects/sub/KS.cfg']]
+
+
+def check_reads(job):
+    from verif import mesonproc as mp
+    import tempfile
+    variant, = job
+    root = tempfile.mkdtemp(prefix='verif.c15reads.', dir='/var/tmp')
+    src, bdir = os.path.join(root, 'src'), os.path.join(root, 'b')
+    v = []
+    try:
+        files = dict(READS_FILES)
+        if variant == 'no-subproject':
+            files['meson.build'] = files['meson.build'].replace("subproject('sub')\n", '')
+        mp.write_tree(src, files)
+        r = mp.run_meson(['setup', bdir, src], root, timeout=90)
+        if r.rc != 0:
+            return ('reads', variant, [('C15:INTERNAL', 'reads project does not configure: ' + r.out[-300:])], {'cases': 0})
+        for rnd in ('setup', 'reconfigure'):
+            listed = {os.path.relpath(os.path.normpath(p), src) for p in load(bdir, 'intro-buildsystem_files.json')}
+            tag = ' [%s, %s]' % (variant, rnd)
+            for grp in READS_GROUPS:
+                grp = [g for g in grp if variant != 'no-subproject' or not g.startswith('subprojects/')]
+                inn = [g for g in grp if g in listed]
+                if inn and len(inn) != len(grp):
+                    v.append(('C15:buildsystem_files:read-files-treated-differently',
+                              'of the files read the same way (%s) intro-buildsystem_files.json lists %s but not %s%s'
+                              % (', '.join(grp), inn, [g for g in grp if g not in listed], tag)))
+            for bf in bs_files_for(files):
+                if bf not in listed and not (variant == 'no-subproject' and bf.startswith('subprojects/')):
+                    v.append(('C15:buildsystem_files', 'intro-buildsystem_files.json does not list %s%s' % (bf, tag)))
+            txt = open(os.path.join(bdir, 'build.ninja')).read()
+            m = re.search(r'^build build\.ninja[^:\n]*: REGENERATE_BUILD ((?:[^\n$]|\$.)*)$', txt, re.M)
+            if not m:
+                v.append(('C15:INTERNAL', 'no REGENERATE_BUILD statement found'))
+                break
+            deps = set()
+            for tok in re.findall(r'(?:[^\s$]|\$.)+', m.group(1).split('|')[0]):
+                tok = re.sub(r'\$(.)', r'\1', tok)
+                ap = os.path.normpath(tok if os.path.isabs(tok) else os.path.join(bdir, tok))
+                if ap.startswith(src + '/'):
+                    deps.add(os.path.relpath(ap, src))
+            if deps != listed:
+                v.append(('C15:buildsystem_files:differs-from-regenerate-dependencies',
+                          'build.ninja regenerates on %s, intro-buildsystem_files.json lists %s (only in one of them: %s)%s'
+                          % (sorted(deps), sorted(listed), sorted(deps ^ listed), tag)))
+            if rnd == 'setup':
+                r2 = mp.run_meson(['setup', '--reconfigure', bdir, src], root, timeout=90)
+                if r2.rc != 0:
+                    v.append(('C15:reconfigure-fails', 'setup --reconfigure fails: ' + r2.out[-300:]))
+                    break
+    finally:
+        shutil.rmtree(root, ignore_errors=True)
+    return ('reads', variant, v, {'cases': 2 * (len(READS_GROUPS) + 2)})
+
+
 def dispatch(job):
     k = job[0]
     if k == 'opts':
@@ -490,6 +560,8 @@ def dispatch(job):
         return check_tests(job[1:])
     if k == 'install':
         return check_install(job[1:])
+    if k == 'reads':
+        return check_reads(job[1:])
     return check_project(job)
 
 
@@ -542,6 +614,8 @@ def main():
     for ci, cl in enumerate(OPT_CMDLINES):
         jobs.append(('opts', ci, cl))
     jobs.append(('tests',))
+    jobs.append(('reads', 'with-subproject'))
+    jobs.append(('reads', 'no-subproject'))
     jobs.append(('install', 'rich', RICH))
     jobs.append(('install', 'nolang', NOLANG))
     jobs.append(('install', 'install-dirs', install_dirs_project()))
